@@ -11,7 +11,7 @@ Theorem header_fidelity (c : stream_class) (ig : integ) (o : soptions) (s : stre
         po_name := p_name (so_params o); po_gen := p_gen (so_params o); po_star := p_star (so_params o);
         po_version := if p_nd (so_params o) then 2 else 1; po_delimited := d; po_nd := p_nd (so_params o) |}.
 Proof.
-  unfold stream_new. destruct (negb (preset_ok (so_maxn o))) eqn:Hp; [discriminate|].
+  unfold stream_new. destruct (negb (preset_ok (so_maxn o) (so_maxp o) (so_maxd o))) eqn:Hp; [discriminate|].
   unfold bind. destruct (match so_flow o with Some f => Ok f | None => infer_flow c o end) as [fl|e]; [|discriminate].
   destruct (negb (type_compat (physical_type c) (fl_logical fl))) eqn:Hc; [discriminate|].
   intros H; inversion H; subst; clear H.
@@ -48,7 +48,7 @@ Theorem forbidden_pair_rejected_both_sides (c : stream_class) (ig : integ) (o : 
   (type_compat (o_phys w) (o_logical w) = false -> exists e, options_from_frame {| f_rows := ROptions w :: rows; f_meta := md |} d = Err e).
 Proof.
   split.
-  - intros [Hf Hc]. unfold stream_new. destruct (negb (preset_ok _)); [eauto|]. rewrite Hf. cbn [bind]. rewrite Hc. cbn. eauto.
+  - intros [Hf Hc]. unfold stream_new. destruct (negb (preset_ok _ _ _)); [eauto|]. rewrite Hf. cbn [bind]. rewrite Hc. cbn. eauto.
   - intros Hc. unfold options_from_frame, first_options, bind; cbn. rewrite Hc. cbn. eauto.
 Qed.
 
@@ -81,3 +81,27 @@ Theorem nonstrict_ignores_logical (ig : integ) (ak : adapter_kind) (po po' : pop
   (forall o, r <> ROptions o) ->
   decode_row ig ak po r st = decode_row ig ak po' r st.
 Proof. intros H. destruct r; try reflexivity. exfalso. eapply H. reflexivity. Qed.
+
+(* tables larger than 4096 are refused when a stream is created and when a header is read *)
+Theorem large_tables_rejected_both_sides (c : stream_class) (ig : integ) (o : soptions) (w : woptions) (rows : list row) (md : list (str * str)) (d : bool) :
+  (4096 < so_maxn o \/ 4096 < so_maxp o \/ 4096 < so_maxd o -> stream_new c ig o = Err Conformance) /\
+  (4096 < o_maxn w \/ 4096 < o_maxp w \/ 4096 < o_maxd w -> exists e, options_from_frame {| f_rows := ROptions w :: rows; f_meta := md |} d = Err e).
+Proof.
+  assert (G : forall a b c0, 4096 < a \/ 4096 < b \/ 4096 < c0 -> preset_ok a b c0 = false).
+  { intros a b c0 H. unfold preset_ok, MAX_LOOKUP_SIZE. destruct (a <? MIN_NAME_LOOKUP_SIZE); [reflexivity|]. cbn [negb andb].
+    destruct (N.leb_spec a 4096); [|reflexivity]. destruct (N.leb_spec b 4096); [|reflexivity]. destruct (N.leb_spec c0 4096); [|reflexivity]. lia. }
+  split.
+  - intros H. unfold stream_new. now rewrite (G _ _ _ H).
+  - intros H. unfold options_from_frame, first_options, bind; cbn.
+    destruct (negb (type_compat _ _)); [eauto|]. rewrite (G _ _ _ H). cbn. eauto.
+Qed.
+
+(* a stream that could be created has tables the reader accepts *)
+Lemma stream_new_tables_ok (c : stream_class) (ig : integ) (o : soptions) (s : stream) :
+  stream_new c ig o = Ok s -> so_maxn o <= 4096 /\ so_maxp o <= 4096 /\ so_maxd o <= 4096.
+Proof.
+  unfold stream_new. destruct (negb (preset_ok (so_maxn o) (so_maxp o) (so_maxd o))) eqn:E; [discriminate|]. intros _.
+  apply negb_false_iff in E. unfold preset_ok, MAX_LOOKUP_SIZE in E.
+  apply andb_prop in E. destruct E as [E Ed]. apply andb_prop in E. destruct E as [E Ep]. apply andb_prop in E. destruct E as [_ En].
+  apply N.leb_le in En, Ep, Ed. auto.
+Qed.
